@@ -141,6 +141,9 @@ func (ck *Check) findDecision(rule string) *decision {
 		ac := ac
 		if ac.Fn == d.sdA.Fn {
 			d.noop, d.noopA = ac.Call, &ac
+		} else if g, _ := ck.delegate(ac.Fn); g == a.GraceReaper && d.noop == nil {
+			// reached through a one-line wrapper that hands the reaper its dependencies
+			d.noop, d.noopA = ac.Call, &ac
 		}
 	}
 	// peel overrides: cur = φ whose edges are all `prev` or "raise prev to at least 1"
